@@ -62,13 +62,14 @@ def fft(data, shift=True):
         if shift:
             res = np.fft.fftshift(res)
     else:
-        res = np.fft.fft2(
-            data_np,
-            axes=[data.dims.index('x'), data.dims.index('y')])
+        if isinstance(data, xr.DataArray):
+            axes = [data.dims.index('x'), data.dims.index('y')]
+        else:
+            # an ndarray has no named axes: its first two are the image's
+            axes = [0, 1]
+        res = np.fft.fft2(data_np, axes=axes)
         if shift:
-            res = np.fft.fftshift(
-                res,
-                axes=[data.dims.index('x'), data.dims.index('y')])
+            res = np.fft.fftshift(res, axes=axes)
 
     if isinstance(data, xr.DataArray):
         res = xr.DataArray(res, **transform_metadata(data, False))
@@ -105,18 +106,14 @@ def ifft(data, shift=True):
             data_np = np.fft.ifftshift(data_np)
         res = np.fft.ifft(data_np)
     else:
-        if shift:
-            shifted = np.fft.ifftshift(
-                data_np,
-                axes=[data.dims.index('m'), data.dims.index('n')])
-            res = np.fft.ifft2(
-                shifted,
-                axes=[data.dims.index('m'), data.dims.index('n')])
+        # (same axes as the forward transform, wherever they are)
+        if isinstance(data, xr.DataArray):
+            axes = [data.dims.index('m'), data.dims.index('n')]
         else:
-            # (same axes as the forward transform, wherever they are)
-            res = np.fft.ifft2(
-                data_np,
-                axes=[data.dims.index('m'), data.dims.index('n')])
+            axes = [0, 1]
+        if shift:
+            data_np = np.fft.ifftshift(data_np, axes=axes)
+        res = np.fft.ifft2(data_np, axes=axes)
 
     if isinstance(data, xr.DataArray):
         res = xr.DataArray(res, **transform_metadata(data, True))
